@@ -128,6 +128,15 @@ static void c10_text(const std::string& text, const ref::Value& rv, const std::v
     Document od;
     od.ParseOnDemand(b.p, b.n, jp);
     {
+      // in/out aliasing: the caller passes ONE StringView object as the text and as the result slot (descending a path
+      // step by step: GetOnDemand(cur, step, cur)); the text is taken by value, so this is well defined
+      StringView cur = json;
+      ParseResult ra = GetOnDemand(cur, jp, cur);
+      bool same = (ra.Error() == kErrorNone) == (res.Error() == kErrorNone) && (ra.Error() != kErrorNone ? cur.empty() : (cur.data() == target.data() && cur.size() == target.size()));
+      if (!same)
+        ctx.violation("inout_alias", "ondemand_inout_alias_differs", where, "GetOnDemand(v, path, v) gives error %d slice size %zu, with separate objects error %d slice size %zu", (int)ra.Error(), cur.size(), (int)res.Error(), target.size());
+    }
+    {
       // the same path as a JsonPointerView (keys are StringViews: slices of longer buffers, not NUL-terminated):
       // every entry point must give exactly the result it gives for the std::string pointer
       std::vector<std::string> kb;
